@@ -154,9 +154,11 @@ func checkC04(c *Check) {
 	// the client credentials sent are the ones configured now: the handler works on the shared configuration or its own
 	// per-check clone, never on a memoised copy (C19.R5)
 	handlerConfigOwn(c, "C04.R2", R)
+	storedObjectsAreReadOnly(c, "C04.R4", R)
 	// … and a rotated secret reaches them: the secret controller relies on its index, not on the oneof arm that the first
 	// reconcile replaced (C19.R3), and ignores an update only for the enumerated reasons (C19.R1)
 	if c.ID == "C04" {
+		importObls(c, "C18", checkC18, "C04.R2", func(o *Obligation) bool { return strings.HasPrefix(o.Key, "C18.R3/merge-into-own-copy") })
 		importObls(c, "C19", checkC19, "C04.R2", func(o *Obligation) bool {
 			return strings.HasPrefix(o.Key, "C19.R3/reconcile-does-not-rederive") || strings.HasPrefix(o.Key, "C19.R1/skip-reason") || strings.HasPrefix(o.Key, "C19.R2/value-is-the-datum-itself")
 		})
@@ -481,4 +483,71 @@ func transportPreservesRequest(c *Check, rule string) {
 func isGlobalNamed(v ssa.Value, pkg, name string) bool {
 	g, ok := v.(*ssa.Global)
 	return ok && g.Pkg != nil && g.Pkg.Pkg.Path() == pkg && g.Name() == name
+}
+
+// storedObjectsAreReadOnly: the handler does not write into an object it obtained from the session store
+// (GetAuthorizationState / GetTokenResponse results). The in-memory store hands out the stored object itself:
+// a field "cleared after use" in the handler is cleared in the store, for every later check of that session,
+// while the Redis store — which returns copies — behaves differently.
+func storedObjectsAreReadOnly(c *Check, rule string, R *Roles) {
+	P := c.P
+	n := 0
+	for _, fn := range R.HandlerFuncs {
+		for _, b := range fn.Blocks {
+			for _, ins := range b.Instrs {
+				st, ok := ins.(*ssa.Store)
+				if !ok {
+					continue
+				}
+				fa, isF := st.Addr.(*ssa.FieldAddr)
+				if !isF {
+					continue
+				}
+				t := typeID(derefType(fa.X.Type()))
+				if t != pkgOIDC+".AuthorizationState" && t != idTokenResponse {
+					continue
+				}
+				n++
+				bad := ""
+				for _, l := range Leaves(fa.X, leafOpts{noConcat: true}) {
+					l = resolveCell(stripConv(l))
+					if gc, _, isC := asCall(l); isC && (isCallTo(gc, mGetState) || isCallTo(gc, mGetToken)) {
+						bad = descDepth(l, 2)
+					}
+					if p, isP := l.(*ssa.Parameter); isP && p.Parent() == fn {
+						// a parameter that every caller fills with a store result
+						all, any := true, false
+						for k, q := range fn.Params {
+							if q != p {
+								continue
+							}
+							for _, cs := range callsToFn2(P, fn) {
+								any = true
+								ok2 := false
+								for _, al := range Leaves(cs.Common().Args[k], leafOpts{noConcat: true}) {
+									if gc, _, isC := asCall(resolveCell(stripConv(al))); isC && (isCallTo(gc, mGetState) || isCallTo(gc, mGetToken)) {
+										ok2 = true
+									}
+								}
+								if !ok2 {
+									all = false
+								}
+							}
+						}
+						if any && all {
+							bad = "a parameter that holds a store result"
+						}
+					}
+				}
+				f := fieldOf(fa.X.Type(), fa.Field)
+				name := "?"
+				if f != nil {
+					name = f.Name()
+				}
+				c.Obl(bad == "", rule, "stored-object-read-only/"+fnKey(fn)+"/"+name, P.Pos(st.Pos()), "the written object is built in the handler",
+					"field "+name+" is written on "+bad+", an object obtained from the session store: with the in-memory store this changes the stored session itself")
+			}
+		}
+	}
+	c.Obl(n >= 1, rule, "stored-object-writes", "-", fmt.Sprintf("%d writes to session-object fields in the handler, none on a store result", n), "no write to a session-object field found in the handler (anchor lost)")
 }
